@@ -684,6 +684,13 @@ pub fn encode_with_fixed_block_size<T: Source>(
         stream.add_frame(frame);
     }
 
+    // `Stream::add_frame` lowers `min_block_size` when the last frame is short;
+    // the minimum excludes the last block and must not be smaller than 16.
+    stream
+        .stream_info_mut()
+        .set_block_sizes(block_size, block_size)
+        .unwrap();
+
     let (_, context) = framebuf_and_context;
     stream
         .stream_info_mut()
